@@ -110,8 +110,18 @@ a("ceil", 9, lambda x: int(math.ceil(x)))
 a("floor", 9, lambda x: int(math.floor(x)))
 a("trunc", 9, int, 1)
 
-a("e", 11, lambda x, y: x * 10**y)
-a("E", 11, lambda x, y: x * 10**y)
+
+
+def _e_notation(mantissa, exponent):
+    if abs(exponent) > 400:
+        # beyond the range of a float (which is what MediaWiki computes with):
+        # do not build an integer with that many digits, let pow() overflow
+        return mantissa * math.pow(10, exponent)
+    return mantissa * 10**exponent
+
+
+a("e", 11, _e_notation)
+a("E", 11, _e_notation)
 
 a("*", 8, lambda x, y: x * y)
 a("/", 8, lambda x, y: x / y)
